@@ -694,6 +694,21 @@ func (g *Gen) evalCall(ctx *specCtx, x *ECall) Val {
 		// within(s, t): s is a sub-range of t's block range [off, off+cap)
 		a, b := arg(0).(SliceV), arg(1).(SliceV)
 		return BoolV{and(eq(a.Ref, b.Ref), "(<= "+b.Off+" "+a.Off+")", "(<= (+ "+a.Off+" "+a.Cap+") (+ "+b.Off+" "+b.Cap+"))")}
+	case "freshin":
+		// allocated during this execution of the function under verification (whatever state `old` denotes here)
+		if g.entry != nil {
+			switch v := arg(0).(type) {
+			case SliceV:
+				return BoolV{"(>= " + v.Ref + " " + g.entry.ac + ")"}
+			case PtrV:
+				return BoolV{"(>= " + v.Ref + " " + g.entry.ac + ")"}
+			case IfaceV:
+				return BoolV{"(>= " + v.Pay + " " + g.entry.ac + ")"}
+			case RefV:
+				return BoolV{"(>= " + v.T + " " + g.entry.ac + ")"}
+			}
+		}
+		g.unsupported("freshin() of non-reference")
 	case "fresh":
 		switch v := arg(0).(type) {
 		case SliceV:
